@@ -230,6 +230,21 @@ def read_ndjson(path):
     return out
 
 
+def read_ndjson_lenient(path):
+    """Like read_ndjson, but stops at the first line that does not parse (a trace cut short by a crash)."""
+    out = []
+    with open(path, errors="replace") as f:
+        for line in f:
+            line = line.strip()
+            if not line:
+                continue
+            try:
+                out.append(json.loads(line))
+            except ValueError:
+                break
+    return out
+
+
 def write_ndjson(path, events):
     with open(path, "w") as f:
         for e in events:
